@@ -384,6 +384,7 @@ def run(F, res, tier):
     # a resolver left pointing at another module resolves the names that follow in that module (C09/Y4)
     from rules import c09 as _c09
     _c09.resolver_swaps(F, res, rule="S17")
+    _c09.declared_types_are_read_in_their_own_module(F, res, rule="S19")   # `value.field` in another module: the right field type, the right target
     # ---- S4
     rn = F.fn("ide::def::resolver::Resolver::resolve_name")
     names = [(b, FL.short(callee(t) or callee_def(t))) for b, t in rn.calls()]
